@@ -280,20 +280,21 @@ def _more(pid, text):
 
 
 _more("C01", "Grouped template-free alignment with a searched rotation set (one wrongly oriented member per group has to come back).")
-_more("C02", "Call-level output_shape on loaders that carry another default shape.")
+_more("C02", "Call-level output_shape on loaders that carry another default shape; reshape() from a shape, a template or a mask; loaders that read the tomogram from an MRC file.")
 _more("C03", "load() with unsorted / repeated index iterables.")
 _more("C06", "A stub model derived from BaseAlignmentModel whose optimiser returns candidate-specific shifts and rotations "
-      "(label, shift, rotation and score must belong to the best candidate).")
+      "(label, shift, rotation and score must belong to the best candidate), and its base-class fit; masks given as functions of the template.")
 _more("C08", "Unions built from tilt-model objects that stay alive and are read again afterwards.")
 _more("C09", "Integer tomograms under nearest-neighbour sampling; average_split with string group keys compared across child "
       "interpreters with different PYTHONHASHSEED.")
 _more("C10", "average under a 6 KiB dask chunk size (unequal blocks along the molecule axis); integer tomograms as numpy vs dask arrays.")
-_more("C11", "Read - edit in place - read again on one object; translate_internal(copy=False).")
+_more("C11", "Read - edit in place - read again on one object; translate_internal(copy=False); translate_random / rotate_random / from_random.")
 _more("C12", "First feature added to a table without feature columns.")
 _more("C13", "The caller's data frame is untouched by from_dataframe and used twice.")
 _more("C14", "Components overwritten between two simulations; molecules straddling the lower z face in projection mode; tilt series and arbitrary projection planes of cubic simulators against the analytic projection of the planted Gaussian particles (3 % of the peak); coloured simulations of order-0/1 simulators against the colour-weighted sum of single-molecule simulations.")
 _more("C15", "Loaders used before binning; batches with a tomogram without molecules and explicit non-enumerating ids.")
 _more("C16", "float64 images that need more than 24 significant bits.")
 _more("C17", "Both inputs rescaled by 1e-8 / 1e+8 (gain invariance).")
-_more("C19", "Files rewritten between two reads of the same path; NaN voxels under >= and <=; from_pdb against the histogram of its ATOM records.")
+_more("C19", "Files rewritten between two reads of the same path; NaN voxels under >= and <=; from_pdb against the histogram of its ATOM records; center_by_mass.")
 _more("C20", "The plateau finding is attributed by cause: the same image without its constant background must give exactly the planted particles.")
+_more("C18", "split_clusters, inverse_transform and fit_transform of the fitted PCA object.")
